@@ -296,9 +296,6 @@ for (sizes, tier) in (((2, 2), "quick"), ((3, 2), "thorough"), ((2, 2, 2), "thor
 TWO_FUNCS = ["ldb_twoiter_first", "ldb_twoiter_last", "ldb_twoiter_seek", "ldb_twoiter_next", "ldb_twoiter_prev",
              "ldb_twoiter_skip_forward", "ldb_twoiter_skip_backward", "ldb_twoiter_init_data_block",
              "ldb_twoiter_set_data_iter", "ldb_twoiter_status", "ldb_twoiter_key", "ldb_twoiter_value", "ldb_twoiter_create"]
-# table/iterator.c's ldb_iter_destroy (cleanup list walk + two free()s per data
-# iterator) is below the unit: modelled by vp_arr_iter_destroy (clear() only)
-TWO_REPLACE = ["ldb_iter_destroy:vp_arr_iter_destroy"]
 
 
 def two_defs(sizes, mode):
@@ -324,10 +321,13 @@ for (sizes, fam, tier) in (((1, 0), "ARR", "quick"), ((0, 1), "ARR", "quick"), (
                            ((1, 0), "***", "thorough")):
     d = two_defs(sizes, 0)
     d.update(fam_defs(fam))
+    # table/iterator.c's ldb_iter_destroy (cleanup list walk + two free()s per data
+    # iterator) is below the unit: modelled by vp_arr_iter_destroy (clear() only)
+    d["VP_MODEL_DESTROY"] = 1
     add("d.twolevel-ops-%s-%s" % ("x".join(str(x) for x in sizes), fam.replace("*", "x")), "C07/twolevel.c",
         real=UTIL_REAL, kit=KIT_SLAB, include_real=["table/two_level_iterator.c"], defs=d,
         unwind=sum(sizes) + len(sizes) + 3, unwindset=two_loops(sizes), tier=tier, flags=NOSTD,
-        replace_calls=TWO_REPLACE, functions=TWO_FUNCS, fp_rules={"block_function": "vp_blockfn"},
+        functions=TWO_FUNCS, fp_rules={"block_function": "vp_blockfn"},
         desc="two_level_iterator.c over an index child and per-block children (some EMPTY, status symbolic = some FAILING): after every step valid/key/value == sorted-map cursor over the union (empty blocks skipped both ways, nothing lost/repeated); exactly the held data iterator alive; status() == index status, else held block status, else first non-OK status of released blocks; a block error is never forgotten",
         bounds="blocks with %s entries (concrete keys: the unit never compares keys), symbolic seek targets below/on/between/above every key and separator, symbolic index and block statuses, %s" % ("/".join(str(x) for x in sizes), fam_text(fam)))
 for (sizes, symkeys, tier) in (((1, 0, 1), 0, "quick"), ((0, 1, 0, 1), 0, "quick"), ((1, 0, 1), 1, "quick"),
